@@ -57,9 +57,10 @@ FOREIGN = [('class', 'k'), ('data-foo', '2'), ('data-x-y', '7'), ('f:a', '3'), (
 
 
 class El:
-    def __init__(self, eid, tag, stmts, foreign, kids, nstag=False):
+    def __init__(self, eid, tag, stmts, foreign, kids, nstag=False, nsname='tal'):
         self.eid, self.tag, self.stmts, self.foreign, self.kids = eid, tag, stmts, foreign, kids
-        self.nstag = nstag      # element of the tal: namespace (its tag is never rendered)
+        self.nstag = nstag      # element of a template-language namespace (its tag is never rendered)
+        self.nsname = nsname    # which one: tal / metal / i18n
 
 
 def gen(rng, depth, counter, allow_undeclared):
@@ -103,8 +104,9 @@ def gen(rng, depth, counter, allow_undeclared):
         kids.append(' ${1/0} ')        # the body fails: the on-error fallback is what gets rendered
     nstag = rng.random() < (.4 if any(s[1] == 'on-error' for s in stmts) else .2) and not any(s[1] == 'attributes' and s[0] == 'tal' for s in stmts)
     if nstag:
-        foreign = []
-    return El(eid, rng.choice(['p', 'div', 'b', 'span']), stmts, foreign, kids, nstag)
+        # the only attribute of another kind such an element may carry: a default-namespace declaration for its content
+        foreign = [('xmlns', 'http://www.w3.org/1999/xhtml')] if rng.random() < .25 else []
+    return El(eid, rng.choice(['p', 'div', 'b', 'span']), stmts, foreign, kids, nstag, rng.choice(['tal', 'tal', 'metal', 'i18n']))
 
 
 def serialise(n, plan, path=()):
@@ -120,7 +122,7 @@ def serialise(n, plan, path=()):
     attrs = ['id="%s"' % n.eid]
     for i, (ns, name, val) in enumerate(n.stmts):
         kind = p.get('spell', {}).get(i, 'default')
-        if nselem and unprefixed and ns == 'tal':
+        if nselem and unprefixed and ns == n.nsname:
             attrs.append('%s="%s"' % (name, val))
         elif kind == 'default':
             attrs.append('%s:%s="%s"' % (ns, name, val))
@@ -139,7 +141,7 @@ def serialise(n, plan, path=()):
         attrs.append('xmlns:f="http://foreign"')
     tag = n.tag
     if nselem:
-        tag = '%s:%s' % (p.get('nselem_prefix', 'tal'), n.tag)
+        tag = '%s:%s' % (p.get('nselem_prefix', n.nsname), n.tag)
         attrs = attrs[1:]
     return '<%s%s>%s</%s>' % (tag, ''.join(' ' + a for a in attrs), ''.join(serialise(k, plan) for k in n.kids), tag)
 
@@ -170,9 +172,9 @@ def make_plan(rng, root, mode, data_ok):
             if n.nstag:
                 p['unprefixed'] = rng.random() < .6
                 if rng.random() < .5:
-                    p['nselem_prefix'] = ALT['tal']
-                    if 'tal' not in visible:
-                        here.add('tal')
+                    p['nselem_prefix'] = ALT[n.nsname]
+                    if n.nsname not in visible:
+                        here.add(n.nsname)
             for i, (ns, name, val) in enumerate(n.stmts):
                 kind = rng.choice(['default', 'renamed', 'renamed', 'data'] if data_ok else ['default', 'renamed'])
                 spell[i] = kind
